@@ -106,7 +106,7 @@ TEXT = {
                 "timestamps, the inner getter is present/absent/erroring, the inner settable accepts or rejects and its "
                 "update succeeds or fails; after every wrapper update the recorded inner calls must be exactly the "
                 "terminal's combined read (actuator), the inner state bit-for-bit (encoder), or the value of a "
-                "stand-alone CommandPID fed the same (time, state, command) sequence (PID wrapper). Plus periodic histories (every primitive word of up to 2-4 symbols (per engine, see evidence bounds) over the core alphabet repeated to 16-64 events, with at most one deviation) and long runs on both sides of 2^8 and 2^9 events.",
+                "stand-alone CommandPID fed the same (time, state, command) sequence (PID wrapper). Plus periodic histories (every primitive word of up to 2-4 symbols (per engine, see evidence bounds) over the core alphabet repeated to 16-64 events, with at most one deviation) and long runs on both sides of 2^8 and 2^9 events. Plus twin / bystander runs: a second live object of the same kind used alternately must not change anything.",
         "note": "Two states, two commands, irregular dyadic round spacing, PID initial time later than the first data.",
     },
     "C08": {
@@ -116,7 +116,7 @@ TEXT = {
                 "and Differential (4 trust modes): every subset of terminals wired to external terminals, every sequence of "
                 "3 (4) rounds for 2-terminal and 2 (3) for 3-terminal devices; after each update the own slots must equal the "
                 "projection of the pre-update reads, stamped with the newest contributing time; uninformed slots and "
-                "external slots bit-identical. Plus periodic histories (every primitive word of up to 2-4 symbols (per engine, see evidence bounds) over the core alphabet repeated to 16-64 events, with at most one deviation) and long runs on both sides of 2^8 and 2^9 events. Plus dense sweeps of the continuous parameters over a ratio grid (2^(1/16) steps, thorough 2^(1/32), plus 1 +- 2^-k).",
+                "external slots bit-identical. Plus periodic histories (every primitive word of up to 2-4 symbols (per engine, see evidence bounds) over the core alphabet repeated to 16-64 events, with at most one deviation) and long runs on both sides of 2^8 and 2^9 events. Plus dense sweeps of the continuous parameters over a ratio grid (2^(1/16) steps, thorough 2^(1/32), plus 1 +- 2^-k). Plus twin / bystander runs: a second live object of the same kind used alternately must not change anything.",
         "note": "Two state triples, five timing options per terminal and round (newest, tie, stale; negative and positive times).",
     },
     "C13": {
@@ -125,7 +125,7 @@ TEXT = {
         "text": "Same harness as C08 with commands: after each update every device terminal and connected external terminal "
                 "must read a newest issued command with issuer's time and kind, value mapped by the path; differential "
                 "leaves command slots bit-identical. Chains: all 4^1..4^4 (4^5) device sequences x all 2^6 (2^8) "
-                "issuing-end sequences, ends and every intermediate terminal checked exactly. Plus periodic histories (every primitive word of up to 2-4 symbols (per engine, see evidence bounds) over the core alphabet repeated to 16-64 events, with at most one deviation) and long runs on both sides of 2^8 and 2^9 events. Plus dense sweeps of the continuous parameters over a ratio grid (2^(1/16) steps, thorough 2^(1/32), plus 1 +- 2^-k).",
+                "issuing-end sequences, ends and every intermediate terminal checked exactly. Plus periodic histories (every primitive word of up to 2-4 symbols (per engine, see evidence bounds) over the core alphabet repeated to 16-64 events, with at most one deviation) and long runs on both sides of 2^8 and 2^9 events. Plus dense sweeps of the continuous parameters over a ratio grid (2^(1/16) steps, thorough 2^(1/32), plus 1 +- 2^-k). Plus twin / bystander runs: a second live object of the same kind used alternately must not change anything.",
         "note": "Two commands of different kinds; chain ratios are powers of two so the product is exact.",
     },
     "C15": {
@@ -136,7 +136,7 @@ TEXT = {
                 "on fresh real objects and compared after every operation with a ten-line model: last request = last "
                 "successful set; update forwards exactly the followed getter's present value; errors propagate; "
                 "get = Datum(now, history(now+offset)) with the offset rule of each constructor/set_delta/set_time. The "
-                "scripted history stamps its data with a different time than queried so that restamping is observable. Plus periodic histories (every primitive word of up to 2-4 symbols (per engine, see evidence bounds) over the core alphabet repeated to 16-64 events, with at most one deviation) and long runs on both sides of 2^8 and 2^9 events.",
+                "scripted history stamps its data with a different time than queried so that restamping is observable. Plus periodic histories (every primitive word of up to 2-4 symbols (per engine, see evidence bounds) over the core alphabet repeated to 16-64 events, with at most one deviation) and long runs on both sides of 2^8 and 2^9 events. Plus twin / bystander runs: a second live object of the same kind used alternately must not change anything.",
         "note": "Two values, four clock steps (incl. negative and 1e12), two deltas, two set_time targets.",
     },
     "C12": {
@@ -145,7 +145,7 @@ TEXT = {
         "text": "Every history to depth 5 (6) over {P(dt,v): dt in {0,1ns,0.5s,3s}} + {N,E1} x windows {1ns,0.5s,2s,1h} and "
                 "smoothing {0,.25,.5,1}, plus 24/2 (64/3) long histories: no update panics; moving average equals the "
                 "time-weighted mean of the window (weights >=0, sum = window, asserted in the reference); EWMA equals "
-                "prev*(1-L)+new*L; convexity; first sample; absent ignored; variants agree. Plus periodic histories (every primitive word of up to 2-4 symbols (per engine, see evidence bounds) over the core alphabet repeated to 16-64 events, with at most one deviation) and long runs on both sides of 2^8 and 2^9 events. Plus dense sweeps of the continuous parameters over a ratio grid (2^(1/16) steps, thorough 2^(1/32), plus 1 +- 2^-k).",
+                "prev*(1-L)+new*L; convexity; first sample; absent ignored; variants agree. Plus periodic histories (every primitive word of up to 2-4 symbols (per engine, see evidence bounds) over the core alphabet repeated to 16-64 events, with at most one deviation) and long runs on both sides of 2^8 and 2^9 events. Plus dense sweeps of the continuous parameters over a ratio grid (2^(1/16) steps, thorough 2^(1/32), plus 1 +- 2^-k). Plus twin / bystander runs: a second live object of the same kind used alternately must not change anything.",
         "note": "Windows, smoothing constants, values and steps from fixed alphabets; decreasing timestamps are outside the property.",
     },
     "C10": {
@@ -155,7 +155,7 @@ TEXT = {
                 "symbols (4 intervals x 4 values) + N + E1 plus 24/2 (64/3) long histories; after each present sample the "
                 "output must equal trapezoid sums / backward differences applied once or twice, absent until 2 resp. 3 "
                 "samples, stamped with the newest sample, unit = input*s or input/s; to-state converters must panic "
-                "exactly on ill-dimensioned present samples; shift by -1e15/+11/+1e17 ns bit-identical. Plus periodic histories (every primitive word of up to 2-4 symbols (per engine, see evidence bounds) over the core alphabet repeated to 16-64 events, with at most one deviation) and long runs on both sides of 2^8 and 2^9 events. Plus dense sweeps of the continuous parameters over a ratio grid (2^(1/16) steps, thorough 2^(1/32), plus 1 +- 2^-k).",
+                "exactly on ill-dimensioned present samples; shift by -1e15/+11/+1e17 ns bit-identical. Plus periodic histories (every primitive word of up to 2-4 symbols (per engine, see evidence bounds) over the core alphabet repeated to 16-64 events, with at most one deviation) and long runs on both sides of 2^8 and 2^9 events. Plus dense sweeps of the continuous parameters over a ratio grid (2^(1/16) steps, thorough 2^(1/32), plus 1 +- 2^-k). Plus twin / bystander runs: a second live object of the same kind used alternately must not change anything.",
         "note": "Values/intervals from fixed alphabets (1 us .. 1 h); non-uniform spacing and non-linear signals are in the "
                 "alphabet precisely because equal spacing hides rectangle-vs-trapezoid and first-vs-second difference slips.",
     },
@@ -166,7 +166,7 @@ TEXT = {
                 "initial kinds, plus 24/2 (48/3) long histories; after every event (also after set) get() must equal the "
                 "reference: PID on the commanded component with kind-specific gains, output / integral / double integral, "
                 "absent for exactly 0/1/2 samples after start or reset, set(same) no-op, set(different) restarts, N "
-                "resets, E reported until next sample. Bit-exact on the dyadic alphabet. Plus periodic histories (every primitive word of up to 2-4 symbols (per engine, see evidence bounds) over the core alphabet repeated to 16-64 events, with at most one deviation) and long runs on both sides of 2^8 and 2^9 events. Plus dense sweeps of the continuous parameters over a ratio grid (2^(1/16) steps, thorough 2^(1/32), plus 1 +- 2^-k).",
+                "resets, E reported until next sample. Bit-exact on the dyadic alphabet. Plus periodic histories (every primitive word of up to 2-4 symbols (per engine, see evidence bounds) over the core alphabet repeated to 16-64 events, with at most one deviation) and long runs on both sides of 2^8 and 2^9 events. Plus dense sweeps of the continuous parameters over a ratio grid (2^(1/16) steps, thorough 2^(1/32), plus 1 +- 2^-k). Plus twin / bystander runs: a second live object of the same kind used alternately must not change anything.",
         "note": "Two states, two intervals, six commands; gains distinct per kind so that a wrong selection shows.",
     },
     "C04": {
@@ -177,7 +177,7 @@ TEXT = {
                 "last reset, bit-exactly on the dyadic alphabet and within a derived forward-error bound on the broad "
                 "one; 24/2 (64/3) deviation-bounded long histories cover integral accumulation. Shift by -1e15/+7/+1e17 "
                 "ns must be bit-identical, scaling by 2^-3/2^4 exact, and the controller composed from the crate's own "
-                "difference/integral/derivative/product/sum streams must agree. Plus periodic histories (every primitive word of up to 2-4 symbols (per engine, see evidence bounds) over the core alphabet repeated to 16-64 events, with at most one deviation) and long runs on both sides of 2^8 and 2^9 events. Plus dense sweeps of the continuous parameters over a ratio grid (2^(1/16) steps, thorough 2^(1/32), plus 1 +- 2^-k).",
+                "difference/integral/derivative/product/sum streams must agree. Plus periodic histories (every primitive word of up to 2-4 symbols (per engine, see evidence bounds) over the core alphabet repeated to 16-64 events, with at most one deviation) and long runs on both sides of 2^8 and 2^9 events. Plus dense sweeps of the continuous parameters over a ratio grid (2^(1/16) steps, thorough 2^(1/32), plus 1 +- 2^-k). Plus twin / bystander runs: a second live object of the same kind used alternately must not change anything.",
         "note": "Gains, setpoints, values and intervals from fixed alphabets (intervals 1 us .. 1 h). The controller's memory "
                 "is one previous sample plus the integral, so depth >= 3 reaches every distinct stage.",
     },
@@ -187,7 +187,7 @@ TEXT = {
         "text": "The combinators are stateless, so their behaviour is a function of the input categories, the relative "
                 "order of timestamps and the values; the first two are enumerated completely (arities 1..5 quick, 1..8 "
                 "thorough; every weak order), values are identifying primes. Checks category, payload, timestamp, error "
-                "precedence, Sum2/Product2 vs n-ary, De Morgan, and purity of three consecutive reads.",
+                "precedence, Sum2/Product2 vs n-ary, De Morgan, and purity of three consecutive reads. Plus twin / bystander runs: a second live object of the same kind used alternately must not change anything.",
         "note": "Values from a fixed alphabet of distinct primes and units; open corners accepted both ways (see assumptions).",
     },
     "C03": {
@@ -208,7 +208,7 @@ TEXT = {
                 "event: no stale error, reset == fresh stream fed the suffix (bit equality), deleting ignored absent "
                 "events changes nothing, get() pure (input poisoned between calls; lazy-get run). Freeze: all 16^d "
                 "condition x input histories against the reference machine. Small-scope complete: the streams keep at "
-                "most three samples of memory, so depth 8 exceeds every distinct internal stage. Plus periodic histories (every primitive word of up to 2-4 symbols (per engine, see evidence bounds) over the core alphabet repeated to 16-64 events, with at most one deviation) and long runs on both sides of 2^8 and 2^9 events.",
+                "most three samples of memory, so depth 8 exceeds every distinct internal stage. Plus periodic histories (every primitive word of up to 2-4 symbols (per engine, see evidence bounds) over the core alphabet repeated to 16-64 events, with at most one deviation) and long runs on both sides of 2^8 and 2^9 events. Plus twin / bystander runs: a second live object of the same kind used alternately must not change anything.",
         "note": "Trusted: harness reset-policy table, scripted inputs. Values from a two-element alphabet, clock +1 s "
                 "per event; numeric correctness is C04/C10/C11/C12's business, not this check's.",
     },
@@ -219,7 +219,7 @@ TEXT = {
                 "terminals (state rebuilt by witness replay) and compared with the matching model; no panic, symmetric "
                 "links, exact post-conditions. Read clause: all 16 presence patterns x all weak timestamp orders x "
                 "linked/unlinked; 5400 long unobserved operation bursts. Complete for the stated bounds; link logic has no data dependence so small n is "
-                "representative.",
+                "representative. Plus twin / bystander runs: a second live object of the same kind used alternately must not change anything.",
         "note": "Trusted: rustc, the harness decoding of partners from state means (own states are distinct powers of two). "
                 "Bound: n<=6 quick, n<=8 thorough; values from a fixed dyadic alphabet.",
     },
